@@ -42,6 +42,8 @@ for m in muts:
     for p in props:
         if os.environ.get("ONLY_OWN") and p != m[:3]:
             continue
+        if os.environ.get("ONLY_PROPS") and p not in os.environ["ONLY_PROPS"].split(","):
+            continue
         jobs.append((m, p, wt))
 res = {}
 with cf.ThreadPoolExecutor(max_workers=14) as ex:
@@ -53,7 +55,7 @@ for m, wt in wts.items():
     for d in (f"/tmp/wtm/ev_{m}", f"/tmp/wtm/rp_{m}"):
         shutil.rmtree(d, ignore_errors=True)
 shutil.rmtree(SNAP, ignore_errors=True)
-old = json.load(open(f"{V}/seeded/matrix.json")) if os.path.exists(f"{V}/seeded/matrix.json") and only else {}
+old = json.load(open(f"{V}/seeded/matrix.json")) if os.path.exists(f"{V}/seeded/matrix.json") and (only or os.environ.get("ONLY_PROPS") or os.environ.get("ONLY_OWN")) else {}
 for m_, r_ in res.items():
     old.setdefault(m_, {}).update(r_)
 json.dump(old, open(f"{V}/seeded/matrix.json", "w"), indent=1, sort_keys=True)
